@@ -395,6 +395,36 @@ func c08Symbol(r *fw.Rec, s dmref.Symbol) {
 		}
 	}
 	r.Tally("writer_matrices_equal")
+	// the same size asked for by MIN_SIZE alone (no shape hint, a two-digit message = one codeword):
+	// the symbol is the first of Table 7 that is at least that large - for the two pairs of sizes
+	// that share a capacity (12x12 / 8x18, 20x20 / 12x36) the length of the padded codeword stream
+	// does not tell which one was meant
+	{
+		minD, _ := gozxing.NewDimension(s.Cols, s.Rows)
+		wantS, ok := dmref.Lookup(1, 0, s.Rows, s.Cols, 0, 0)
+		h2 := map[gozxing.EncodeHintType]interface{}{gozxing.EncodeHintType_MIN_SIZE: minD}
+		bm2, err2 := datamatrix.NewDataMatrixWriter().Encode("42", gozxing.BarcodeFormat_DATA_MATRIX, 0, 0, h2)
+		hl2, herr := dmenc.EncodeHighLevel("42", dmenc.SymbolShapeHint_FORCE_NONE, minD, nil)
+		if ok && err2 == nil && herr == nil && len(hl2) == wantS.DataCW {
+			got2, want2 := bitMatrixToBools(bm2), dmref.BuildMatrix(wantS, hl2)
+			same := len(got2) == len(want2) && len(got2[0]) == len(want2[0])
+			for y := 0; same && y < len(got2); y++ {
+				for x := range got2[y] {
+					if got2[y][x] != want2[y][x] {
+						same = false
+						break
+					}
+				}
+			}
+			if !same {
+				r.Violation("model-mismatch", "dm.writer:min-size-symbol-differs", fmt.Sprintf("writer asked for MIN_SIZE %dx%d alone produced %dx%d; the standard construction of its codewords in the first symbol at least that large (%dx%d) differs", s.Rows, s.Cols, len(got2), len(got2[0]), wantS.Rows, wantS.Cols), info)
+				return
+			}
+			r.Tally("writer_matrices_equal_min_size_alone")
+		} else {
+			r.Tally("writer_min_size_alone_skipped")
+		}
+	}
 	if string(hl) == string(data) {
 		r.Tally("writer_codewords_equal_plain_ascii_reference")
 	}
@@ -493,6 +523,7 @@ func c08(c *fw.Ctx) {
 	c.Floor("decoder_reference_symbols_clean", int64(30*reps*8/10))
 	c.Floor("decoder_reference_symbols_damaged", int64(30*reps*8/10))
 	c.Floor("writer_matrices_equal", int64(30*reps/2))
+	c.Floor("writer_matrices_equal_min_size_alone", int64(30*reps/3))
 	c.Floor("pad_positions_checked", 1556)
 	c.Floor("base256_positions_checked", 1000)
 }
